@@ -289,6 +289,6 @@ pub fn property() -> Property {
       "confidentiality is only sampled through these necessary conditions",
       "Strobe-128 duplex block = 166 bytes; the encryption operation starts on a block boundary",
     ],
-    subs: vec![prop_sub("aux_confidentiality", 6000, 120000, strat, oracle)],
+    subs: vec![prop_sub("aux_confidentiality", 6000, 400000, strat, oracle)],
   }
 }
